@@ -108,6 +108,7 @@ type expectedGetWithPrefix struct {
 	filters     []FilterFn
 	expectedKey []byte
 	expectedTx  uint64 // 0 used to denote non-existence
+	writtenByTx bool   // expectedKey was written by the ongoing transaction
 }
 
 type EntrySpec struct {
@@ -580,6 +581,18 @@ func (tx *OngoingTx) GetWithPrefixAndFilters(ctx context.Context, prefix, neq []
 		tx.mvccReadSet.readsetSize++
 	}
 
+	if !tx.IsReadOnly() && valRef.Tx() == 0 {
+		// the entry was written by the ongoing tx: it is still the one to be fetched at commit time
+		// unless a preceding entry was added. As for any read of an own entry, the read-set size is not increased
+		tx.mvccReadSet.expectedGetsWithPrefix = append(tx.mvccReadSet.expectedGetsWithPrefix, expectedGetWithPrefix{
+			prefix:      cp(prefix),
+			neq:         cp(neq),
+			filters:     filters,
+			expectedKey: cp(key),
+			writtenByTx: true,
+		})
+	}
+
 	return key, valRef, nil
 }
 
@@ -845,6 +858,12 @@ func (tx *OngoingTx) checkPreconditions(ctx context.Context, st *ImmuStore) erro
 			}
 
 			key, valRef, err := snap.GetWithPrefixAndFilters(ctx, e.prefix, e.neq, e.filters...)
+			if e.writtenByTx && (err == nil || errors.Is(err, ErrKeyNotFound)) {
+				if err == nil && bytes.Compare(key, e.expectedKey) < 0 {
+					return ErrTxReadConflict
+				}
+				continue
+			}
 			if errors.Is(err, ErrKeyNotFound) {
 				if e.expectedTx > 0 {
 					return ErrTxReadConflict
